@@ -124,7 +124,7 @@ def is_layout_run(r: str) -> bool:
     return True
 
 
-COMMENT_TEXTS = ["c", "note", "TODO: fix (later)", "it's \"quoted\" [x {y", "x = 1; y", "", "a // b", "tail)"]
+COMMENT_TEXTS = ["c", "note", "see a/b/", "TODO: fix (later)", "it's \"quoted\" [x {y", "x = 1; y", "", "a // b", "tail)", "/"]
 
 
 def layouts(rng):
@@ -147,7 +147,7 @@ def layouts(rng):
 
     def trailing_comments(src):
         def f(k, d, r, p, n):
-            t = rng.choice(COMMENT_TEXTS[:3]) if rng.random() < 0.8 else rng.choice(COMMENT_TEXTS)
+            t = rng.choice(COMMENT_TEXTS[:4]) if rng.random() < 0.8 else rng.choice(COMMENT_TEXTS)
             return " //" + (" " + t if t else "") + "\n" + " " * rng.choice([0, 0, 4])
         return relayout(src, f)
 
